@@ -34,6 +34,26 @@ def gen_workload(rng, prop, B):
     ntop = rng.choice([1, 2, 3])
     topics = ["t%d" % (i + 1) for i in range(ntop)]
     g = G.Gen(rng, B=B, big=True)
+    if prop == "C04" and rng.random() < 0.35:
+        # regular streams on the io_uring path: a batch of equal-size entries, then single appends of the
+        # same size (they land exactly on the slots a failed batch had planned: stale entries left behind
+        # by an incomplete rollback become readable after a restart — seeded change c04b-2 was missed
+        # by the random sizes), then another batch
+        size = rng.choice([0, 9, 100, 300, 700])
+        t = topics[0]
+        pid = 0
+        ops = []
+        for _ in range(rng.choice([0, 1, 2])):
+            ops.append("A %s %d %d" % (t, pid, size)); pid += 1
+        nb = rng.choice([2, 3, 4, 6])
+        ops.append("B %s %s" % (t, ",".join("%d:%d" % (pid + i, size) for i in range(nb)))); pid += nb
+        for _ in range(rng.choice([1, 2, 3, 4, 6])):
+            ops.append("A %s %d %d" % (t, pid, size)); pid += 1
+        if rng.random() < 0.5:
+            nb = rng.choice([2, 3])
+            ops.append("B %s %s" % (t, ",".join("%d:%d" % (pid + i, size) for i in range(nb)))); pid += nb
+        hdr = "mode=strict backend=fd sched=%s" % rng.choice(SCHEDS)
+        return hdr, ops, dict(topics=topics, mode=mode, only_read_next=True, regular=True)
     if prop == "C09" and rng.random() < 0.3:
         # regular streams: equal-size entries (one per block, two per block, or small), a consumer that
         # has read part of them with read_next: consecutive persisted positions then share their
@@ -177,6 +197,16 @@ def run(ctx):
             mode = re.search(r"mode=(\S+)", hdr).group(1)
             workloads.append((hdr, ls[1:], dict(topics=topics, mode=mode,
                                                   only_read_next=not any(l.startswith("BR") for l in ls[1:])), None))
+    if prop == "C09":
+        # one deterministic family per consistency mode: small equal entries that stay in the writer's
+        # active block, more consuming read_next calls than persist_every (AtLeastOnce must persist every
+        # persist_every-th of them also at the tail: seeded change c09b-2 — the tail path resetting the
+        # counter on every read — was missed by the random workloads), crash points incl. after the last event
+        for mode, pe in [("strict", 1), ("alo:1", 1), ("alo:2", 2), ("alo:3", 3), ("alo:5", 5), ("alo:8", 8)]:
+            n = 2 * pe + 3
+            ops = ["A t1 %d %d" % (i, 40 + 3 * (i % 2)) for i in range(n)] + ["R t1 1"] * (2 * pe + 1)
+            workloads.append(("mode=%s backend=%s sched=nofsync" % (mode, rng.choice(["fd", "mmap"])), ops,
+                              dict(topics=["t1"], mode=mode, only_read_next=True, regular=True), None))
     for _ in range(nwork):
         hdr, ops, info = gen_workload(rng, prop, B)
         workloads.append((hdr, ops, info, None))
@@ -338,7 +368,9 @@ def run_faults(ctx, wh, workloads, rng, q):
         if w[3] is not None:
             cand = [c for c in cand if c[0] in w[3]]
         elif q and len(cand) > 10:
-            cand = sorted(rng.sample(cand, 10))
+            keep = [c for c in cand if c[1] == "uring_cqe"] if w[2].get("regular") else []     # every completion of a regular batch
+            rest = [c for c in cand if c not in keep]
+            cand = sorted(keep[:12] + rng.sample(rest, min(len(rest), max(0, 10 - len(keep)))))
         for k, kind in cand:
             kinds_hist[kind] = kinds_hist.get(kind, 0) + 1
             for variant in ("inproc", "restart"):
